@@ -412,6 +412,12 @@ func (c *Chain) buildFrom(start, root *gorm.DB) *gorm.DB {
 		}
 	}
 	tx = applyConds(tx, root, c.Conds)
+	switch c.EmptyCond {
+	case "struct":
+		tx = tx.Where(modelOf(c.Base, 0))
+	case "map":
+		tx = tx.Where(map[string]interface{}{})
+	}
 	if c.Group != "" {
 		tx = tx.Group(c.Group)
 	}
